@@ -11,9 +11,9 @@ for t in ("i8", "u8"):
       clause="all a,b of the type, all f32 x in [0,1]: min<=r<=max, conversion never panics", solver="kissat", timeout=900)
     k("law_%s::same_value" % t, *LERP, ["C14"], "contract", tier="thorough", function="<%s as Lerp>::lerp" % t,
       clause="all a, all f32 x in [0,1]: lerp(a,a,x)==a", solver="kissat", timeout=900)
-for t in ("i8", "u8", "i16", "u16", "i32", "u32", "i64", "u64", "usize"):
-    k("nearest_grid16_%s" % t, *LERP, ["C14"], "contract", function="<%s as Lerp>::lerp" % t,
-      clause="result is the real interpolation rounded to nearest (exact integer oracle)", bound="x on the 17-point grid k/16; |a|,|b| < 4096 (whole range for i8/u8)")
+for t in ("i8", "u8"):
+    k("nearest_grid16_%s" % t, *LERP, ["C14"], "contract", function="<%s as Lerp>::lerp (one macro body shared by all nine integer types)" % t,
+      clause="result is the real interpolation rounded to nearest (exact integer oracle)", bound="x on the 17-point grid k/16; every a, b of the type")
 k("f32_endpoints", *LERP, ["C14", "C02"], "contract", function="<f32 as Lerp>::lerp", clause="finite a,b: lerp(a,b,0)==a, lerp(a,b,1)==b exactly")
 k("f64_endpoints", *LERP, ["C14"], "contract", function="<f64 as Lerp>::lerp", clause="a,b exactly representable in f32: endpoints exact")
 k("canary_must_fail", *LERP, ["C14"], "canary")
@@ -29,6 +29,12 @@ for vname in VARIANTS:
       clause="calc(0)==0 and calc(1)==1 exactly (%s)" % vname)
     k("%s::dispatch_matches_published_points" % vname, *EASE, ["C13"], "contract", function="<Easing as EasingFunction>::calc",
       clause="for every x in [0,1]: the variant evaluates the Bezier polynomial of its PUBLISHED control points (%s)" % vname, solver="cvc5")
+for vname in ("linear", "in_sine", "in_quad", "in_cubic", "in_quart", "in_quint", "in_expo", "in_circ"):
+    k("%s::range" % vname, *EASE, ["C13", "C20"], "contract", function="<Easing as EasingFunction>::calc", solver="kissat",
+      clause="stays within [0,1] (and finite) for every f32 x in [0,1]")
+for vname in ("ease", "ease_in", "ease_out", "ease_in_out", "in_out_sine", "in_out_quad", "in_out_cubic", "in_out_quart", "in_out_quint", "in_out_expo", "in_out_circ", "out_circ"):
+    k("%s::range" % vname, *EASE, ["C13", "C20"], "contract", tier="thorough", function="<Easing as EasingFunction>::calc", solver="kissat", timeout=500,
+      clause="stays within [0,1] (and finite) for every f32 x in [0,1] (200-410 s each)")
 for vname in ("in_back", "out_back", "in_out_back"):
     k("%s::range" % vname, *EASE, ["C13", "C20"], "contract", function="<Easing as EasingFunction>::calc",
       clause="finite and within [-1,2] on [0,1] (Back family overshoots by design)")
